@@ -488,6 +488,7 @@ impl P {
     /// parsing attribute arguments are discarded.
     pub(crate) fn attributes(&mut self) -> R<()> {
         while self.is_sym(b"@") {
+            crate::types::note_attribute();
             let at_end = self.cur().end;
             self.advance();
             if self.cur().start != at_end {
